@@ -106,23 +106,35 @@ impl Mul<f64> for Duration {
         let mut p: i32 = 0;
         let mut new_val = q;
         let ten: f64 = 10.0;
+        let total = self.total_nanoseconds();
 
         loop {
-            if (new_val.floor() - new_val).abs() < f64::EPSILON {
+            // The scaled factor is a whole number when rounding it changes nothing relative to its own magnitude.
+            // (An absolute tolerance accepts every factor below epsilon as the integer zero.)
+            if new_val == 0.0 || (new_val.round() - new_val).abs() < f64::EPSILON * new_val.abs() {
                 // Yay, we've found the precision of this number
                 break;
             }
             // Multiply by the precision
             // https://play.rust-lang.org/?version=stable&mode=debug&edition=2018&gist=b760579f103b7192c20413ebbe167b90
             p += 1;
+            if p > 38 {
+                // 10^39 does not fit in an i128: the factor is too small (or not finite) for the decimal scaling,
+                // so compute the product on floats; the cast saturates.
+                return Duration::from_total_nanoseconds((total as f64 * q) as i128);
+            }
             new_val = q * ten.powi(p);
         }
 
-        Duration::from_total_nanoseconds(
-            self.total_nanoseconds()
-                .saturating_mul(new_val as i128)
-                .saturating_div(10_i128.pow(p.try_into().unwrap())),
-        )
+        match total.checked_mul(new_val.round() as i128) {
+            Some(scaled) => Duration::from_total_nanoseconds(
+                scaled.saturating_div(10_i128.pow(p.try_into().unwrap())),
+            ),
+            // The scaled integer product does not fit in 128 bits (long durations times a factor with many decimals):
+            // saturating it before the division returned a result several times too small. Such a product is far
+            // above the resolution of a double, so compute it on floats; the cast saturates.
+            None => Duration::from_total_nanoseconds((total as f64 * q) as i128),
+        }
     }
 }
 
